@@ -130,6 +130,27 @@ PROPS = {
             "both join operands are relations (all members tuples with one heading); heterogeneous tuple sets are C01's domain",
         ],
     },
+    "C11": {
+        "level": "exploration",
+        "technique": "property-based testing (rapid) under the Go race detector: generated concurrent-evaluation trials (shared cold values, shared compiled expressions, shared import cache, frozen's parallel traversal forced on by FROZEN_CONCURRENCY=5) with race reports attributed to the running case, and every goroutine's result compared with a Go-computed reference value",
+        "level_text": "Generated-input search over trial descriptions; the interleavings are those the Go scheduler produces on 16 cores, each trial released from a barrier and repeated on fresh (cold) values. "
+                      "The test binary is built with -race; reports are written to a log (GORACE log_path) and read back after every case, so a report becomes a failure of the case that was running. "
+                      "A report counts iff the innermost non-runtime frame of at least one of the two conflicting accesses is in github.com/arr-ai/arrai (memory owned by arr.ai's code); "
+                      "reports wholly inside another module are listed in the evidence notes and not counted. Oracles besides the detector: all goroutines return the same value, it equals the value computed "
+                      "in Go from the inputs (joins, where, map, set algebra, orderby on 130-700 member sets; serial result otherwise), an evaluation whose predicate fails for some member returns an error, "
+                      "and the same evaluation alone afterwards agrees. Trial kinds: shared-tuple (first use of a GenericTuple's lazily cached names from 2-16 goroutines: {t}, <, repr, +, merge), "
+                      "shared-relation (join-built relations with cold group-by index: joins, nest, rank, orderby, compare), parallel-join / parallel-where / parallel-generic "
+                      "(sets above frozen's fan-out threshold, also from 1-4 goroutines at once), shared-import (one import cache, module chains), cold-start (first use of the standard library scopes from 8 goroutines at process start). "
+                      "Thorough adds trials at frozen's default threshold (>= 131072 members).",
+        "level_note": "Trusted: Go's race detector (it reports a pair of conflicting accesses only when they actually occur in the run without a happens-before edge: no false positives, misses possible), "
+                      "the attribution rule above, the model's joins/filters, rapid. Not explored: schedules the Go scheduler does not produce in these runs; //os.stdin (process state).",
+        "tests": [{"name": "TestC11", "quick": 40, "thorough": 600, "race": True,
+                   "env": {"GORACE": "log_path={scratch}/race halt_on_error=0", "FROZEN_CONCURRENCY": "5"}},
+                  {"name": "TestC11Default", "quick": 0, "thorough": 3, "race": True, "max_shards": 2,
+                   "env": {"GORACE": "log_path={scratch}/race halt_on_error=0"}}],
+        "rule": "non-trivial: at least 4 goroutines share the values, or the set is above the parallel fan-out threshold in force. Distinct = distinct case JSON (kind, expression, goroutines, size, seed).",
+        "assumptions": COMMON_ASSUMPTIONS,
+    },
     "C12": {
         "level": "exploration",
         "technique": "property-based testing (rapid): generated data values -> printed text -> re-evaluated -> compared with the model value (round trip), plus generated string literals decoded against an independent escape decoder",
